@@ -474,10 +474,14 @@ Definition decode_op (c : Z) : opc :=
    chk_ecdsa sig pubkey scriptCode sigversion        = checker.CheckECDSASignature(...)
    chk_schnorr sig pubkey codeseparator_pos          = None when CheckSchnorrSignature returns true,
                                                        Some e when it returns false having set *serror = e
-   chk_locktime n / chk_sequence n                   = checker.CheckLockTime / CheckSequence *)
+   chk_schnorr_keypath sig program                   = the same for the taproot key-path call (SigVersion::TAPROOT)
+   chk_locktime n / chk_sequence n                   = checker.CheckLockTime / CheckSequence
+   (The real Schnorr checker also reads the annex and tapleaf hash from execdata; these are fixed for one spend,
+   so a `checker` value stands for the checker of one particular spend.) *)
 Record checker := {
   chk_ecdsa : bytes -> bytes -> bytes -> sigversion -> bool;
   chk_schnorr : bytes -> bytes -> Z -> option script_error;
+  chk_schnorr_keypath : bytes -> bytes -> option script_error;
   chk_locktime : Z -> bool;
   chk_sequence : Z -> bool
 }.
@@ -940,6 +944,9 @@ Definition stub_checker (obits : Z) : checker := {|
   chk_schnorr := fun sig pk cpos =>
     if Z.testbit obits ((byte0 sig + 5 * byte0 pk + cpos) mod 32) then None
     else Some (if Z.even (byte0 sig) then SE_SCHNORR_SIG else SE_SCHNORR_SIG_HASHTYPE);
+  chk_schnorr_keypath := fun sig _ =>
+    if Z.testbit obits ((byte0 sig + 11) mod 32) then None
+    else Some (if Z.even (byte0 sig) then SE_SCHNORR_SIG else SE_SCHNORR_SIG_SIZE);
   chk_locktime := fun n => Z.testbit obits (n mod 32);
   chk_sequence := fun n => Z.testbit obits ((n + 7) mod 32)
 |}.
